@@ -278,6 +278,9 @@ func runC13Sched(c *core.Ctx) {
 			c.Sample(map[string]interface{}{"scenario": n, "stats": perScenario[n]})
 		}
 	}
+	// the nonce each lane really carries, followed batch by batch with a scripted hash (shared with C11/C12)
+	powNonceSweeps(c, "C13", 1)
+	powNonceSweeps(c, "C13", 2)
 	c13SchedExhaustive = exhaustive
 }
 
